@@ -310,6 +310,18 @@ def queue_discipline(ctx, p):
                                   (x['r']['a'] and x['r']['a'][0].get('i') == 0) for x in aggs)
                         if not okr:
                             bad.append('%s drains %s from a non-zero start at %s' % (b.path, field, b.loc(bi)))
+        # collections drained from the queue keep the queue order while they are processed
+        REORDER = re.compile(r'(::pop$|::rev$|::reverse$|::sort|::swap$|::swap_remove$|::remove$|::split_off$|::rotate_|::select_nth|::retain)')
+        for b in F.bodies.values():
+            drains = [bi for bi, t in b.all_calls() if (t.get('r') or t.get('f') or '').endswith('::drain') and t['a'] and field in lib.receiver_fields(b, t, 0)]
+            if not drains:
+                continue
+            for bi, t in b.all_calls():
+                nm = t.get('r') or t.get('f') or ''
+                if REORDER.search(nm) and t['a'] and op_place(t['a'][0]) is not None:
+                    sl = backward_slice(b, [op_place(t['a'][0])])
+                    if any(x in drains for x, _ in sl.call_sites):
+                        bad.append('%s processes the entries drained from %s out of order (%s at %s)' % (b.path, field, nm, b.loc(bi)))
         ctx.ob(p + 'a fifo %s' % field, 'K4-confinement', '-', 'the queue %s is used strictly FIFO (push_back / pop_front / drain from index 0); no split_off, pop_back, push_front, insert, sort' % field,
                not bad and n >= 2, '; '.join(bad[:3]) or '%d uses' % n)
 
@@ -359,3 +371,90 @@ def set_always_mirrored(ctx, p):
                 det = '' if ok else 'a Set operation can be skipped: ' + lib.short_path(b, w)
         ctx.ob(p + ' set-always-published %s' % fn, 'K2-loop-order', fn,
                'on the Set arm every iteration inserts the key into the commit overlay under the current commit id (no skip for keys already present)', ok, det)
+
+
+RAW_READERS = ['file::TableFile::read_at', 'file::TableFile::slice_at', 're:(index::IndexTable|ref_count::RefCountTable)::(chunk_at|chunk_entries_at)$']
+LOGQUERY = ['re:^log::LogQuery::', 're:as log::LogQuery>::']
+# raw readers that bypass the log overlay on purpose (function -> reason)
+UNSHADOWED_OK = {
+    'table::ValueTable::open': 'opening a table file: runs before / during Db open, nothing is logged yet for this handle',
+    'table::ValueTable::init_table_data': 'startup (after replay and log cleanup): rebuilds the in-memory free list from the file',
+    'table::ValueTable::refresh_metadata': 'startup, right after replay: re-reads the header from the file',
+    'table::ValueTable::check_free_refs': 'offline diagnostic (Db::dump with validate_free_refs)',
+    'table::ValueTable::dump_entry': 'diagnostic dump of a corrupted entry',
+    'ref_count::RefCountTable::table_entries': 'startup: builds the ref-count cache from the file (HashColumn::init_table_data)',
+    'index::IndexTable::sorted_entries': 'offline diagnostic (fast dump)',
+}
+
+
+def file_reads_shadowed(ctx, p):
+    """every read of table / index / ref-count bytes at runtime looks in the log overlay first and reads the
+    file only on a miss (bytes being rewritten by the applier are always shadowed)."""
+    F = ctx.F
+    n = 0
+    for b in sorted(F.bodies.values(), key=lambda x: x.path):
+        sites = b.call_sites(*RAW_READERS)
+        if not sites:
+            continue
+        if b.path in UNSHADOWED_OK:
+            ctx.ob(p + 'a unshadowed-read-reviewed %s' % b.path, 'K4-confinement', b.path, 'reads file bytes without the overlay by design: ' + UNSHADOWED_OK[b.path], True, '')
+            continue
+        lq = lib.sites_reaching(b, LOGQUERY, lift=False)
+        for i, s2 in enumerate(sites):
+            n += 1
+            w = b.find_path([0], {s2}, removed=set(lq)) if lq else ['?']
+            ok = bool(lq) and w is None
+            guarded = False
+            if ok:
+                for (sw, yes, no) in b.control_deps(s2):
+                    t = b.term(sw)
+                    if t['k'] == 'switch' and op_place(t['a']) is not None:
+                        sl = backward_slice(b, [op_place(t['a'])])
+                        if any(bi in lq for bi, _ in sl.call_sites):
+                            guarded = True
+            ctx.ob(p + 'b overlay-first %s #%d' % (b.path, i), 'K2-order', b.path,
+                   'the log overlay is queried before the file/mapping is read, and the file read happens only depending on the outcome (miss) of that query', ok and guarded,
+                   ('file read reachable without an overlay query: ' + lib.short_path(b, w)) if not ok else 'file read does not depend on the overlay query result', b.loc(s2))
+    ctx.ob(p + 'c raw-read-sites', 'anchor', '-', 'the survey found the runtime file-read sites (>= 12 on the pinned tree)', n >= 12, '%d sites' % n)
+    # who may touch a mapping at all
+    mm = sorted(F.direct_callers_of('re:memmap2::MmapMut as std::ops::Deref>::deref$'))
+    allowed = {'file::TableFile::grow', 'file::TableFile::read_at', 'file::TableFile::slice_at::{closure#0}', 'file::TableFile::write_at', 'file::madvise_random',
+               'index::IndexTable::chunk_at', 'index::IndexTable::chunk_entries_at', 'index::IndexTable::enact_plan', 'index::IndexTable::flush', 'index::IndexTable::load_stats',
+               'ref_count::RefCountTable::chunk_at', 'ref_count::RefCountTable::enact_plan', 'ref_count::RefCountTable::flush'}
+    ctx.ob(p + 'd mapping-access-confined', 'K4-confinement', ','.join(mm), 'a memory mapping is dereferenced only in the raw reader / applier / flush primitives', set(mm) <= allowed, 'unexpected: %s' % sorted(set(mm) - allowed))
+    # the startup-only unshadowed readers are called only from startup code
+    lib.callers_confined(ctx, p + 'e table_entries-startup-only', F, ['ref_count::RefCountTable::table_entries'], {'column::HashColumn::init_table_data'}, 'RefCountTable::table_entries (unshadowed) is used only by init_table_data')
+    lib.callers_confined(ctx, p + 'f refresh_metadata-startup-only', F, ['column::Column::refresh_metadata'], {'db::DbInner::replay_all_logs'}, 'refresh_metadata (unshadowed header read) is used only at the end of replay', required=['db::DbInner::replay_all_logs'])
+
+
+def sync_before_handover(ctx, p):
+    F = ctx.F
+    PUSH_BACK = 'std::collections::VecDeque::<T, A>::push_back'
+    POP_FRONT = 'std::collections::VecDeque::<T, A>::pop_front'
+    SYNC_DATA = 'std::fs::File::sync_data'
+    SYNC_ALL = 'std::fs::File::sync_all'
+    # ---------------------------------------------------------------- 1. log synced before hand-over
+    pushers = lib.calls_on_field(F, [PUSH_BACK, 're:VecDeque.*::(push_front|extend|append|insert)$'], '.Log.read_queue')
+    pb = sorted(set(b.path for b, _ in pushers))
+    ctx.ob(p + 'a read_queue-producers', 'K4-confinement', ','.join(pb) or '-',
+           'only Log::flush_one hands a log file over to the applier (pushes onto Log.read_queue)',
+           pb == ['log::Log::flush_one'], 'bodies pushing onto Log.read_queue: %s' % pb)
+    fo = ctx.body('log::Log::flush_one')
+    if fo:
+        sync_true = lib.prune_bool_field(fo, '.Log.sync', True)
+        ctx.ob(p + 'b sync-assumption-anchored', 'anchor', fo.path, 'a branch on Log.sync exists to prune (assumption sync_wal=true is meaningful)',
+               bool(sync_true), 'no switch on a copy of Log.sync found in flush_one')
+        push_sites = [bi for b, bi in pushers if b is fo]
+        syncs = lib.must_sites(fo, [SYNC_DATA, SYNC_ALL])
+        lib.precedes(ctx, p + 'c sync-before-handover', fo, syncs, push_sites,
+                     'with sync_wal on, every path to the hand-over push passes File::sync_data', removed_edges=sync_true)
+        for ps in push_sites:
+            lib.result_guards(ctx, p + 'd handover-only-if-sync-ok', fo, syncs, ps,
+                              'the hand-over runs only on the Ok outcome of sync_data (error -> no hand-over)') if syncs else None
+        inner = lib.must_sites(fo, ['std::io::BufWriter::<W>::into_inner', 're:BufWriter.*::flush$', 're:Write>::flush$'])
+        lib.precedes(ctx, p + 'e bufwriter-flushed-before-sync', fo, inner, syncs,
+                     'buffered log bytes are written (BufWriter::into_inner/flush) before sync_data', removed_edges=sync_true)
+    poppers = lib.calls_on_field(F, [POP_FRONT, 're:VecDeque.*::(pop_back|drain|remove|swap_remove_.*|split_off|clear|truncate)$', 'std::mem::take', 'std::mem::replace'], '.Log.read_queue')
+    pp = sorted(set(b.path for b, _ in poppers))
+    ctx.ob(p + 'f read_queue-consumers', 'K4-confinement', ','.join(pp) or '-',
+           'only Log::read_next takes files from Log.read_queue', pp == ['log::Log::read_next'], 'consumers: %s' % pp)
